@@ -9,6 +9,7 @@
 -/
 import Bashlex.Serialize
 import Bashlex.Spec.Eval
+import Bashlex.Model.Synth
 
 open Bashlex
 
@@ -44,6 +45,13 @@ def handle (line : String) : String :=
     | "parse" => let (r, t) := parse s o; showOutcome src r ++ " ## " ++ showTouched t
     | "single" => let (r, t) := parsesingle s o; showOutcome src r ++ " ## " ++ showTouched t
     | "split" => let (r, t) := split s; showOutcome none r ++ " ## " ++ showTouched t
+    | "lr" =>
+      -- lr <top|sub> <terminal numbers joined by '.'>
+      let ids := (inp.splitOn ".").filterMap String.toNat?
+      match runSynth (opts == "sub") ids with
+      | .acc k reds => s!"ACC {k} " ++ ".".intercalate (reds.map toString)
+      | .blank k => s!"BLANK {k}"
+      | .err e => "EXN " ++ showExn e
     | _ => specHandle cmd opts inp extra
   | _ => "BAD-REQUEST"
 
